@@ -6,11 +6,20 @@ from ..adapter import build, project, same_def, shape_key
 from .c01 import tags_of, KIND, _try
 
 
+def _proj(piece, mode):
+    """definition of a returned piece; in the tiny-range pass its knot vectors are mapped onto [0, 1] first (a piece that needed
+    no cut keeps the range of the input)"""
+    pg = project(piece)
+    if mode == "tiny_range":
+        pg["kv"] = [[(k - U[0]) / (U[-1] - U[0]) for k in U] for U in pg["kv"]]
+    return pg
+
+
 def _three_decimals(sh):
     return all((fr(k) * 1000).denominator == 1 for U in sh["kv"] for k in U)
 
 
-def check_case(ctx, cs, precision=None, binsearch=False):
+def check_case(ctx, cs, precision=None, binsearch=False, mode=None):
     from geomdl import operations
     from geomdl.exceptions import GeomdlException
     ctx.full = cs
@@ -18,7 +27,27 @@ def check_case(ctx, cs, precision=None, binsearch=False):
     pd = len(sh["deg"])
     tg = tags_of(sh)
     small = {"deg": sh["deg"], "kv": sh["kv"], "rat": sh["rat"]}
-    if precision is None:
+    A_ = 2.0 ** -16
+    unit_range = all(U[0] == [0, 1] and U[-1] == [1, 1] for U in sh["kv"])
+    if mode == "tiny_range":
+        # the same shape on the knot range [0, 2^-16] (kept as it is): all distinct knots lie closer than 1.6e-5 to each other (but farther than the 1e-7 at which the library merges knots).  The
+        # pieces are re-normalised, so they are the pieces of the normalised shape
+        tg = tg + ["knot_range=2^-16"]
+        small = dict(small, knot_range="2^-16")
+        sh_s = dict(sh, kv=[[[k[0], k[1] * 2 ** 16] for k in U] for U in sh["kv"]])
+        ok, obj = _try(ctx, "build", tg, small, lambda: build(sh_s, normalize_kv=False))
+        sh = sh_s
+    elif mode == "tiny_coords":
+        tg = tg + ["coordinates=2^-40"]
+        small = dict(small, coordinates="2^-40")
+
+        def mk():
+            from geomdl import operations as _o
+            ob = build(sh)
+            _o.scale(ob, 2.0 ** -40, inplace=True)
+            return ob
+        ok, obj = _try(ctx, "build", tg, small, mk)
+    elif precision is None:
         ok, obj = _try(ctx, "build", tg, small, lambda: build(sh))
     else:
         # the same case on an input created with a coarse ``precision`` option (its own knots are
@@ -39,7 +68,7 @@ def check_case(ctx, cs, precision=None, binsearch=False):
     op = o["op"]
     if op in ("split", "split_end"):
         d = o["d"]
-        u = float(fr(o["u"]))
+        u = float(fr(o["u"])) * (A_ if mode == "tiny_range" else 1.0)
         fn = operations.split_curve if pd == 1 else (operations.split_surface_u if d == 1 else operations.split_surface_v)
         site = "operations." + fn.__name__
         small = dict(small, d=d, u=o["u"])
@@ -61,7 +90,10 @@ def check_case(ctx, cs, precision=None, binsearch=False):
                     ctx.violate(site, tg2 + ["count"], small, {"expected": 2, "got": len(pcs)})
                 else:
                     for i in (0, 1):
-                        bad = same_def(project(pcs[i]), o["pieces"][i])
+                        if mode == "tiny_coords":
+                            from geomdl import operations as _o
+                            _o.scale(pcs[i], 2.0 ** 40, inplace=True)
+                        bad = same_def(_proj(pcs[i], mode), o["pieces"][i])
                         if bad:
                             ctx.violate(site, tg2 + ["piece%d" % (i + 1)], small, {"field": bad, "got_kv": [list(U) for U in pcs[i]._knot_vector],
                                                                                  "expected_kv": [fl(frv(U)) for U in o["pieces"][i]["kv"]]})
@@ -77,12 +109,19 @@ def check_case(ctx, cs, precision=None, binsearch=False):
                 ctx.violate(site, tg2 + ["count"], small, {"expected": len(o["pieces"]), "got": len(pcs)})
             else:
                 for i, (a, e) in enumerate(zip(pcs, o["pieces"])):
-                    bad = same_def(project(a), e)
+                    if mode == "tiny_coords":
+                        from geomdl import operations as _o
+                        _o.scale(a, 2.0 ** 40, inplace=True)
+                    bad = same_def(_proj(a, mode), e)
                     if bad:
                         ctx.violate(site, tg2 + ["piece"], small, {"piece": i, "field": bad})
                         break
     else:
         raise core.MachineryError("unknown op " + op)
+    if mode is not None:
+        if project(obj) != before:
+            ctx.violate("operations.%s" % op, tg + ["input_modified"], small, {})
+        return
     if same_def(project(obj), sh) or project(obj) != before:
         ctx.violate("operations.%s" % op, tg + ["input_modified"], small, {"field": same_def(project(obj), sh)})
     else:
@@ -120,7 +159,11 @@ def run(ctx):
         if cs["out"]["op"] != "split_end":
             ops["binsearch"] = ops.get("binsearch", 0) + 1
             check_case(ctx, cs, binsearch=True)
-    if len(ops) < 8:
+            if all(U[0] == [0, 1] and U[-1] == [1, 1] for U in cs["sh"]["kv"]):
+                ops["tiny_range"] = ops.get("tiny_range", 0) + 1
+                check_case(ctx, cs, mode="tiny_range")
+                check_case(ctx, cs, mode="tiny_coords")
+    if len(ops) < 9:
         raise core.MachineryError("vacuous model: %s" % ops)
     ctx.traces = len(res.cases)
     ctx.extra["transitions_by_action"] = ops
@@ -129,4 +172,5 @@ def run(ctx):
 
 
 def replay(ctx, v):
-    check_case(ctx, v["full"], precision=v.get("case", {}).get("precision"), binsearch=v.get("case", {}).get("find_span_func") == "binsearch")
+    check_case(ctx, v["full"], precision=v.get("case", {}).get("precision"), binsearch=v.get("case", {}).get("find_span_func") == "binsearch",
+               mode="tiny_range" if "knot_range" in v.get("case", {}) else ("tiny_coords" if "coordinates" in v.get("case", {}) else None))
